@@ -317,9 +317,7 @@ def concurrent_pairs(tier):
     out.append(('print [random 5 5] print {[random 6 6] + [random 7 7]}', 'print [random 50 50] print {[random 60 60] + [random 70 70]}'))
     out.append(('print {2 ^ 3 ^ 2 - 7 % 4} print {1 < 2 and 0 or 5}', 'print {3 ^ 2 ^ 2 - 9 % 5} print {2 < 1 or 0 and 5}'))
     out.append(('print [round [sqrt 16]] print [floor {[ceil 2.5] / 2}]', 'print [round [sqrt 81]] print [floor {[ceil 6.5] / 2}]'))
-    if tier == 'quick':
-        return [(world.POP_ONE, a, b, 1) for a, b in out]
-    return [(world.POP_ONE, a, b, 2) for a, b in out]
+    return [(world.POP_ONE, a, b, 1 if tier == 'quick' else 2, True) for a, b in out]
 
 
 def run(tier, seed):
@@ -358,17 +356,18 @@ def run(tier, seed):
         if bad:
             merge({bad[0]: [1, bad[1], bad[2]]})
     from . import concur
-    ctasks = concurrent_pairs(tier)
+    n_pairs = len(concurrent_pairs(tier))
+    ctasks = concur.split(concurrent_pairs(tier))
     cres = par.run_tasks(concur.pair_task, ctasks)
     cexec = sum(r['execs'] for r in cres)
-    assert cexec > 20 * len(ctasks) and all(r['execs'] > 2 for r in cres)
+    assert cexec > 20 * n_pairs
     for kind, (cnt, text, detail) in sorted(viol.items()):
         rep.violation(kind, '%s (%d cases), e.g. `%s`: %s' % (kind, cnt, text, detail),
                       {'script': text, 'detail': detail, 'cases': cnt})
     for task, r in zip(ctasks, cres):
         for kind, (cnt, choices, detail, texts) in r['viol'].items():
             rep.violation(kind, '%s (%d schedules): %s; jobs %r' % (kind, cnt, detail, texts),
-                          {'pair': [list(t) for t in texts], 'choices': choices, 'detail': detail, 'schedules': cnt})
+                          {'pair': [list(t) for t in texts], 'choices': choices, 'detail': detail, 'schedules': cnt, 'vm_only': True})
     rexec += cexec
     rep.coverage = {
         'states': tot['steps'] + rexec,
@@ -387,7 +386,7 @@ def run(tier, seed):
         'builtin_evaluations': bcases,
         'random_pairs': len(pairs),
         'random_answer_sequences': rexec - cexec,
-        'concurrent_job_pairs': len(ctasks),
+        'concurrent_job_pairs': n_pairs,
         'concurrent_schedules': cexec,
         'concurrent_preemption_bound': ctasks[0][3],
         'samples': ['print { 2 - 3 - 5 }', 'print {2^3^2}', 'if { 2 < 3 and 0 or 7 } print 1 else print 0',
@@ -404,7 +403,7 @@ def replay(path):
     v = json.load(open(path))
     if 'pair' in v['witness']:
         from . import concur
-        return concur.replay(world.POP_ONE, v['witness']['pair'], v['witness']['choices'])
+        return concur.replay(world.POP_ONE, v['witness']['pair'], v['witness']['choices'], v['witness'].get('vm_only', False))
     text = v['witness']['script']
     w = world.World(world.POP_ONE)
     res = w.run_script(text)
